@@ -1240,6 +1240,53 @@ def np_empty(I, a, k):
     return I.st.alloc('clist', [I.st.alloc('clist', [fresh() for _ in range(shp[1])], nd=True) for _ in range(shp[0])], nd=True)
 
 
+def np_sort(I, a, k):
+    """numpy.sort(a): a sorted COPY (1-d; a few symbolic numbers go through the compare-exchange network of sorted())"""
+    x = a[0]
+    if k or len(a) > 1:
+        raise Unsupported('numpy.sort with options')
+    if Mo.is_list(x) and x.kind == 'clist' and any(Mo.is_list(y) for y in I.st.heap[x]):
+        raise Unsupported('numpy.sort of a 2-d array')
+    r = b_sorted(I, [x], {})
+    r.nd = True
+    return _as_dtype(I, r, None)
+
+
+def np_mean(I, a, k):
+    x = a[0]
+    if isinstance(x, Mo.MaskedSel):
+        x = Mo.resolve_masked(I, x) or _unsup('mean of a boolean-mask selection of symbolic shape')
+    if k or len(a) > 1:
+        raise Unsupported('numpy.mean with options')
+    n = nd_nested(I, x) if (Mo.is_list(x) or isinstance(x, tuple)) else x
+    if n is None:
+        raise Unsupported('numpy.mean of an array of symbolic shape')
+    flat = nd_flat(n)
+    if not flat:
+        raise Unsupported('numpy.mean of an empty array (nan)')
+    return Mo.binop(I, ast.Div(), Mo.cast_scalar(I, b_sum(I, [tuple(flat)], {}), 'float'), len(flat))
+
+
+def np_vstack(I, a, k):
+    rows = Mo.concrete_iter(I, a[0])
+    if rows is None or k or len(a) > 1:
+        raise Unsupported('numpy.vstack of a symbolic sequence')
+    out = []
+    for r_ in rows:
+        n = nd_nested(I, r_) if (Mo.is_list(r_) or isinstance(r_, tuple)) else None
+        if n is None:
+            raise Unsupported('numpy.vstack of rows of symbolic length')
+        shp = nd_shape(n)
+        if len(shp) == 1:
+            out.append(n)
+        elif len(shp) == 2:
+            out.extend(n)
+        else:
+            raise Unsupported('numpy.vstack of %d-d operands' % len(shp))
+    nd_shape(out)
+    return _as_dtype(I, nd_build(I, out), None)
+
+
 def np_ptp(I, a, k):
     x = a[0]
     if set(k) - {'axis'} or len(a) > 2:
@@ -1667,6 +1714,9 @@ def lib_lookup(I, dotted):
         'numpy.ndarray': Builtin('numpy.ndarray', lambda I_, a, k: _unsup('ndarray()')),
         'numpy.sum': Builtin('numpy.sum', np_sum),
         'numpy.ptp': Builtin('numpy.ptp', np_ptp),
+        'numpy.sort': Builtin('numpy.sort', np_sort),
+        'numpy.mean': Builtin('numpy.mean', np_mean),
+        'numpy.vstack': Builtin('numpy.vstack', np_vstack),
         'numpy.shape': Builtin('numpy.shape', np_shape),
         'numpy.broadcast': Builtin('numpy.broadcast', np_broadcast),
         'numpy.atleast_1d': Builtin('numpy.atleast_1d', np_atleast_1d),
